@@ -52,6 +52,10 @@ fn machinery_failure(msg: &str) -> ! {
     std::process::exit(2);
 }
 
+fn phase(notes: &mut Vec<String>, ctx: &Ctx, name: &str) {
+    notes.push(format!("timing: {name} finished at {:.1}s", ctx.start.elapsed().as_secs_f64()));
+}
+
 fn dedup(v: Vec<String>) -> Vec<String> {
     let mut out: Vec<String> = vec![];
     for s in v {
@@ -94,7 +98,7 @@ fn lambda(c: &Collisions, tier: Tier) -> Vec<String> {
     for s in ["\u{e9}", "e\u{301}", "\u{df}", "\u{540d}\u{524d}", "\u{1f600}", "\u{10ffff}", "\u{5e9}\u{5dc}\u{5d5}\u{5dd}", "\u{202e}abc", "a\u{200b}b", "\0", "a\0b", "\n"] {
         v.push(s.into());
     }
-    for s in ["", " ", "a b", "a-b", "a.b", "\"", "\\", "a\"b", "{", "//", "r#type", "9lives"] {
+    for s in ["", " ", "a b", "a-b", "a.b", "a,b", "5,id,unit", "_", "\"", "\\", "a\"b", "{", "//", "r#type", "9lives"] {
         v.push(s.into());
     }
     for s in ["0", "1", "01", "42", "4294967295", "4294967296", "0x10", "-1"] {
@@ -318,6 +322,18 @@ fn main() {
     });
     rep.merge(r);
 
+    // wrap-around of the 32-bit sum needs at least 5 bytes: all strings of length <= 6
+    // (thorough 7) over 8 characters including 2-, 3- and 4-byte characters and NUL
+    let alpha8: Vec<char> = vec!['a', '~', ' ', '0', '\u{e9}', '\u{540d}', '\u{1f600}', '\0'];
+    let maxlen8 = tier.pick(6, 7);
+    let total1c = labels::count_upto(8, maxlen8);
+    let r = ctx.par_range("1c-idl_hash:all-strings-over-8-chars-incl-multibyte", total1c, 4096, || (), |_, i, rep| {
+        let s = labels::nth_string(&alpha8, i);
+        checks::check_hash(&s, rep);
+    });
+    rep.merge(r);
+    phase(&mut notes, &ctx, "part 1 (hash)");
+
     // ---- part 2: Label consistency on all ordered pairs
     let ls = label_set(&coll, tier);
     let n2 = ls.len() as u64;
@@ -325,6 +341,8 @@ fn main() {
         checks::check_label_pair(&ls[(i / n2) as usize], &ls[(i % n2) as usize], rep);
     });
     rep.merge(r);
+
+    phase(&mut notes, &ctx, "part 2 (Label)");
 
     // ---- part 4: cross decoding
     let lam = lambda(&coll, tier);
@@ -344,6 +362,15 @@ fn main() {
         checks::check_cross(&c, rep, &lim);
     });
     rep.merge(r);
+
+    let r = ctx.par_range("4c-width:extra-field-or-tag-all-ordered-pairs", nl * nl, 16, || (), |_, i, rep| {
+        let (a, b) = ((i / nl) as usize, (i % nl) as usize);
+        if a != b {
+            checks::check_width(&lam[a], &lam[b], rep, &lim);
+        }
+    });
+    rep.merge(r);
+    phase(&mut notes, &ctx, "part 4 (cross decoding)");
 
     // ---- part 5a: duplicates in text
     let dp = dup_pairs(&coll, &lam);
@@ -413,11 +440,19 @@ fn main() {
         machinery_failure(&e);
     }
 
+    phase(&mut notes, &ctx, "part 5 (duplicates)");
+
     // ---- part 6: derive macro
-    let dr = derive::run_derive(&coll, &mut rep, &lim, None);
+    // (merged first: the number of kept violations is capped and the derive results are few)
+    let mut drep = Report::new();
+    let dr = derive::run_derive(&coll, &mut drep, &lim, None);
     if let Some(e) = dr.machinery_error {
         machinery_failure(&e);
     }
+    drep.merge(rep);
+    let mut rep = drep;
+
+    phase(&mut notes, &ctx, "part 6 (derive, incl. cargo)");
 
     // every violation is re-checked once (same input twice => same observation)
     let mut confirmed = Report::new();
@@ -438,12 +473,14 @@ fn main() {
         "scope": {
             "part1_strings_over_40_char_alphabet": {"max_len": maxlen, "count": total1},
             "part1_extra_strings": extras.len(),
+            "part1_strings_over_8_char_alphabet": {"max_len": maxlen8, "count": total1c},
             "part2_labels": ls.len(),
             "part2_ordered_pairs": n2 * n2,
             "part3_colliding_pairs": coll.all_pairs().len(),
             "part4_label_alphabet": lam.len(),
             "part4_single_label_cases": nl * 3,
             "part4_two_label_ordered_pairs": nl * nl - nl,
+            "part4c_width_ordered_pairs": nl * nl - nl,
             "part5a_label_pairs": dp.len(),
             "part5a_forms": nf,
             "part5a_cases": dp.len() as u64 * nf,
@@ -467,7 +504,7 @@ fn main() {
     let code = finish(
         &ctx,
         rep,
-        "E1 scopes: (1) candid::idl_hash and Label::Named(s).get_id() = R7 hash on every string of length <= 3 (thorough 4) over a 40-character alphabet plus keywords / Unicode / numeric-looking / 200-byte strings; (2) Label eq, ne, cmp, partial_cmp, <, std::hash, HashMap / BTreeMap / HashSet lookup, check_unique, Field and IDLField equality on all ordered pairs of a label set mixing Named / Id / Unnamed spellings of the same ids; (3) colliding names found deterministically (wrap-count analysis of 5-byte strings, hash-map brute force, meet-in-the-middle preimages); (4) every type spelling x value spelling x source order of record {L:nat}, variant {L:nat}, variant {L}, record {L:nat; M:text} annotate and encode to identical bytes, which the strict reference decoder accepts with ascending ids and the real decoder decodes at every type spelling and untyped; (5) equal ids rejected (distinct ids accepted, sorted) by the type and value text parsers in 11 syntactic positions, by record!/variant!/service! (panic = rejection), and by the header parser on all id sequences of length <= 3 (thorough 4) over the id alphabet in record and variant entries; (6) derived types for every label of the list (direct, raw identifier, serde rename) equal the parser's types (ids, subtype::equal, identical bytes, strict reference decode, round trip), two-field structs over all ordered label pairs, one struct and one enum with all labels, and colliding pairs fail to compile through the derive macro's uniqueness assertion. Non-trivial = hash sums exceeding 2^32 (1), equal ids under different spellings (2), spelling order != id order (4, 6), duplicate-id inputs (5).",
+        "E1 scopes: (1) candid::idl_hash and Label::Named(s).get_id() = R7 hash on every string of length <= 3 (thorough 4) over a 40-character alphabet, every string of length <= 6 (thorough 7) over an 8-character alphabet with 1-/2-/3-/4-byte characters and NUL (sums exceed 2^32 from 5 bytes on), plus keywords / Unicode / numeric-looking / 200-byte strings; (2) Label eq, ne, cmp, partial_cmp, <, std::hash, HashMap / BTreeMap / HashSet lookup, check_unique, Field and IDLField equality on all ordered pairs of a label set mixing Named / Id / Unnamed spellings of the same ids; (3) colliding names found deterministically (wrap-count analysis of 5-byte strings, hash-map brute force, meet-in-the-middle preimages); (4) every type spelling x value spelling x source order of record {L:nat}, variant {L:nat}, variant {L}, record {L:nat; M:text} annotate and encode to identical bytes, which the strict reference decoder accepts with ascending ids and the real decoder decodes at every type spelling and untyped; a message with one extra record field (an expected variant type with one extra tag) decodes to the same value at the type written by name and by id; (5) equal ids rejected (distinct ids accepted, sorted) by the type and value text parsers in 11 syntactic positions, by record!/variant!/service! (panic = rejection), and by the header parser on all id sequences of length <= 3 (thorough 4) over the id alphabet in record and variant entries; (6) derived types for every label of the list (direct, raw identifier, serde rename) equal the parser's types (ids, subtype::equal, identical bytes, strict reference decode, round trip), two-field structs over all ordered label pairs, one struct and one enum with all labels, and colliding pairs fail to compile through the derive macro's uniqueness assertion. Non-trivial = hash sums exceeding 2^32 (1), equal ids under different spellings (2), spelling order != id order (4, 6), duplicate-id inputs (5).",
         &[
             "R7 (hash) and R2 (binary grammar, strict) are correct readings of spec/Candid.md",
             "method names of services are identified by name, not by hash (spec): service! and the text parser may accept distinct names with equal hash",
@@ -496,6 +533,7 @@ fn run_case(case: &Value, coll: &Collisions, lim: &Limits, rep: &mut Report) -> 
             }
             None => return false,
         },
+        "width" => checks::check_width(&s("l"), &s("m"), rep, lim),
         "dup-text" => {
             let form = s("form");
             let Some(f) = checks::DUP_FORMS.iter().find(|x| **x == form) else { return false };
